@@ -107,6 +107,11 @@ def carriers(rng, bits, n, talker_table=TALKERS):
         if cuts and seq == '':
             seq = '1'
         lines = gen.render(bits, talker=talker, chan=chan, seq=seq, cuts=cuts)
+        if cuts and len(bits) > 12 and rng.random() < 0.2:
+            # fragments cut at arbitrary bit positions, each padded on its own (its own fill bits)
+            bc = sorted(rng.sample(range(1, len(bits)), min(len(cuts), 4)))
+            if all(b - a <= 1200 for a, b in zip([0] + bc, bc + [len(bits)])):
+                lines = gen.render_ragged(bits, bc, talker=talker, chan=chan, seq=seq)
         if len(lines) == 1 and seq not in ('', '0'):
             # a lone sentence with a sequence id is still complete for decode()
             pass
